@@ -388,3 +388,73 @@ def check_output(chk, f, rule="IT3"):
                 elif r is not None:
                     visit(r)
     return ("ok", npaths) if bad is None else ("bad", bad)
+
+
+# ---- IT4 downward scans include the first element ----------------------------------------------------------------
+def check_reverse(chk, f):
+    """A downward scan `for (...; c != first; --c) use(*c)` uses the element before it steps and stops as soon as c equals
+    the beginning of the range, so the range's first element is never visited. Reported when that element is not handled
+    after the loop either. Returns list of (cursor, begin, loop stmt) instances with verdict."""
+    begins = set(range_pairs(f).keys())
+    out = []
+    body = f.get("body")
+    if body is None or not begins:
+        return out
+    stmts_after = {}
+
+    def derefs(node_iter, name):
+        for x in node_iter:
+            if x.get("k") == "un" and x["op"] in ("*", "->") and ref_name(x["e"]) == name:
+                return True
+        return False
+
+    all_stmts = list(astx.walk_stmts(body))
+    for s0 in all_stmts:
+        if s0.get("k") not in ("for", "while") or s0.get("c") is None:
+            continue
+        pairs = []
+        for op, l, r in atoms_of_cond(s0["c"], True):
+            if op != "!=":
+                continue
+            for a, b in ((l, r), (r, l)):
+                an, bn = ref_name(a), ref_name(b)
+                if an and bn in begins and an != bn:
+                    pairs.append((an, bn))
+        for c, b in pairs:
+            inc = s0.get("inc")
+            dec_in_inc = inc is not None and any(x.get("k") == "un" and x["op"] == "--" and ref_name(x["e"]) == c for x in astx.walk_expr(inc))
+            body_exprs = list(astx.walk_stmt_exprs(s0.get("body"), into_lambdas=False))
+            inc_any = any(x.get("k") == "un" and x["op"] == "++" and ref_name(x["e"]) == c for x in body_exprs)
+            if inc_any:
+                continue
+            # order inside the body: first use vs first decrement
+            first_use = first_dec = None
+            for i, x in enumerate(body_exprs):
+                if first_use is None and x.get("k") == "un" and x["op"] in ("*", "->") and ref_name(x["e"]) == c:
+                    first_use = i
+                if first_dec is None and x.get("k") == "un" and x["op"] == "--" and ref_name(x["e"]) == c:
+                    first_dec = i
+            if first_use is None:
+                continue
+            if not dec_in_inc and first_dec is None:
+                continue
+            if first_dec is not None and first_dec < first_use:
+                continue            # steps before it uses: visits first
+            # neighbours reached through c (prev(c), c - 1) cover the first element
+            if any((x.get("k") == "call" and astx.callee(x)[0] in ("prev",) and x["a"] and ref_name(x["a"][0]) == c) or
+                   (x.get("k") == "bin" and x["op"] == "-" and ref_name(x["l"]) == c) for x in body_exprs):
+                continue
+            # handled after the loop?
+            idx = all_stmts.index(s0)
+            inner = set(id(t) for t in astx.walk_stmts(s0))
+            later = [t for t in all_stmts[idx + 1:] if id(t) not in inner]
+            handled = False
+            for t in later:
+                for e in astx.stmt_exprs(t):
+                    if derefs(astx.walk_expr(e), c) or derefs(astx.walk_expr(e), b):
+                        # a later loop of the same shape over the same cursor does not count (it excludes first as well)
+                        if t.get("k") in ("for", "while") and t is not s0:
+                            continue
+                        handled = True
+            out.append((c, b, s0, handled))
+    return out
